@@ -1224,7 +1224,8 @@ def gen_case(ctx, case):
 def check_case(ctx, prop, binary, case, report_props=None):
     ir, src = gen_case(ctx, case)
     seed = (ctx.seed * 1000003 + case["index"]) & 0x7fffffff
-    r, events, qasm, _ = core.run_bloch(binary, src, env={"BLOCH_VERIF_SEED": str(seed)},
+    args = ["--shots=%d" % case["shots"], "--echo=all"] if case.get("shots") else []
+    r, events, qasm, _ = core.run_bloch(binary, src, args=args, env={"BLOCH_VERIF_SEED": str(seed)},
                                         trace=True, state="all")
     cls = r.classify()
     ctx.note_case(src, nontrivial=True, sample=dict(program_tail=src[len(PRELUDE):][:600],
@@ -1250,6 +1251,13 @@ def check_case(ctx, prop, binary, case, report_props=None):
         ctx.inconclusive_because("no trace for program %d" % case["index"])
         return None
     m, stop = check_execution(ir, runs[0])
+    # multi-shot: every shot that ran is stepped against the model as well
+    for extra in runs[1:]:
+        m2, stop2 = check_execution(ir, extra)
+        ctx.count("lang_extra_shots")
+        m.findings.extend(m2.findings)
+        if stop is None and stop2 is not None:
+            m, stop = m2, stop2
     ctx.count("lang_ops_checked", m.counts["ops"])
     ctx.count("lang_states_compared", m.counts["states"])
     ctx.count("lang_measures", m.counts["measures"])
